@@ -545,11 +545,17 @@ def c10(ctx):
         if st is None:
             continue
         enc = st["enc"]
-        frames = st["frames"]
+        # every third stream: few, long frames, so that length prefixes take two bytes (>= 128)
+        # -- a cut can then fall between the bytes of a prefix
+        if si % 2 == 0:
+            frames = enc.frames(cut_p=0.04, empties=False, metadata=False)
+        else:
+            frames = st["frames"]
         payloads = [f.SerializeToString(deterministic=True) for f in frames]
         data = fam_encode.delimited(payloads)
-        if len(data) > 700 and ctx.quick:
+        if len(data) > 1500 and ctx.quick:
             continue
+        ctx.report.count(f"C10/frames-with-2-byte-prefix={sum(1 for p_ in payloads if len(p_) >= 128)}")
         per_frame = refenc.frame_events(enc.events, enc.event_rows, enc.frame_rows)
         # frame boundaries
         bounds, pos = [], 0
